@@ -83,7 +83,7 @@ def _gen_text(rng, bl, prompt):
     if k < 0.13:
         # out of the domain on purpose
         return rng.choice([b"a\rb\n", b"a\r\nb\r\n", b"x\r", b"ab" + bytes([rng.choice(list(bl))]) + b"\ncd\n",
-                           bytes([rng.choice(list(bl))]), b"x\n" + prompt + b"\n", prompt])
+                           bytes([rng.choice(list(bl))]), b"x\n" + prompt + b"\n", b"y\n" + prompt])
     if k < 0.2:
         # more than one send slice, 'tee: ' early
         body = b"\n".join(gen_line(rng, bl, prompt) for _ in range(rng.randint(2, 5)))
